@@ -435,12 +435,27 @@ func generate(c *Ctx) []Replay {
 
 	// -- deterministic corpus: the witnesses of the refuted theorems and of the recorded findings, always first
 	huge := []byte{0xff, 0xff, 0xff, 0xff, 0xff, 0xff, 0xff, 0xff, 0xff, 0x01}
-	add("bytes", huge)                                                     // C13_total_bytes_refuted
-	add("wp", huge)                                                        // C13_total_wp_refuted
-	add("qr", append([]byte{0, 0, 0, 0, 0, 0, 0, 1}, huge...))             // C13_total_qr_refuted
-	add("apile", append([]byte{0, 0, 0, 0, 0, 0, 0, 1}, huge...))          // C13_total_apile_refuted
-	add("leu", nil, append([]byte{0x20, 0, 0, 0, 0, 0, 0, 0, 1}, huge...)) // C13_total_le_refuted
-	add("escape", []byte("\xef\xbf\xbd"))                                  // C13_total_escape_unadvanced_refuted: the code returns
+	// the length varint 2^64-1 (-1 as an int): the dependency's function panics (kind bytes: environment, compared by K), the /repo
+	// decoders, which read it through the guarded utils.UnmarshalBytes/UnmarshalString, return an error
+	add("bytes", huge)                                                     // C13_total_bytes_unguarded_refuted
+	add("wp", huge)                                                        // C13_total_wp_unguarded_refuted: the code refuses the packet
+	add("qr", append([]byte{0, 0, 0, 0, 0, 0, 0, 1}, huge...))             // C13_total_qr_unguarded_refuted
+	add("apile", append([]byte{0, 0, 0, 0, 0, 0, 0, 1}, huge...))          // C13_total_apile_unguarded_refuted
+	add("leu", nil, append([]byte{0x20, 0, 0, 0, 0, 0, 0, 0, 1}, huge...)) // C13_total_le_unguarded_refuted
+	// ... in the second and third string field, and inside the events of a write packet
+	add("qr", append(append([]byte{0, 0, 0, 0, 0, 0, 0, 1, 1, 'q'}, huge...), 0, 0, 0, 0, 0, 0, 0, 0, 0, 0))
+	add("apile", append([]byte{0, 0, 0, 0, 0, 0, 0, 1, 1, 'm', 0}, huge...))
+	add("leu", []byte{1, 'a', 1, 'b'}, append([]byte{0x21, 0, 0, 0, 0, 0, 0, 0, 1, 1, 'm'}, huge...))
+	add("wp", append([]byte{3, 't', '=', '1'}, huge...))
+	add("wp", append([]byte{3, 't', '=', '1', 0, 0, 0, 0, 1, 0, 0, 0, 0, 0, 0, 0, 1}, huge...))
+	add("wp", append([]byte{3, 't', '=', '1', 0, 0, 0, 0, 2, 0, 0, 0, 0, 0, 0, 0, 1, 1, 'm', 0, 0, 0, 0, 0, 0, 0, 0, 0, 2, 0}, huge...))
+	// 2^64-1 (-1 as an int), 2^63, 2^63-1 and 2^63-10 (positive ints; ln+idx wraps), bit 63 alone
+	for _, hv := range hostileVarints[:5] {
+		add("bytes", hv)
+		add("leu", nil, bytesViaLeU(hv))
+		add("wp", hv)
+	}
+	add("escape", []byte("\xef\xbf\xbd")) // C13_total_escape_unadvanced_refuted: the code returns
 	expanding := []byte("a=\"" + strings.Repeat("\x80", 86) + "\"")
 	add("fromkv", expanding) // C13_stored_wf_raw_limit_refuted: the code refuses the text
 	add("wp", encWp("t=1", string(expanding), []apiEv{{1, "m", "", ""}}).buf)
@@ -542,6 +557,9 @@ func generate(c *Ctx) []Replay {
 		add("uint", hv)
 		add("bytes", hv)
 		add("bytes", append(append([]byte{}, hv...), 'x', 'y'))
+		// the same bytes through the guarded utils.UnmarshalBytes (message of a stored record)
+		add("leu", nil, bytesViaLeU(hv))
+		add("leu", nil, bytesViaLeU(append(append([]byte{}, hv...), 'x', 'y')))
 	}
 	for i := 0; i < c.N(15); i++ {
 		v := r.U64() >> uint(r.Intn(64))
@@ -554,8 +572,13 @@ func generate(c *Ctx) []Replay {
 		body := r.Bytes(n, nil)
 		full := append(varint(uint64(n)), body...)
 		add("bytes", full)
-		add("bytes", full[:r.Intn(len(full)+1)])
-		add("bytes", append(varint(uint64(n+r.Range(-2, 2)+200*b2i(r.Chance(1, 5)))), body...))
+		cut := full[:r.Intn(len(full)+1)]
+		add("bytes", cut)
+		off := append(varint(uint64(n+r.Range(-2, 2)+200*b2i(r.Chance(1, 5)))), body...)
+		add("bytes", off)
+		add("leu", nil, bytesViaLeU(full))
+		add("leu", nil, bytesViaLeU(cut))
+		add("leu", nil, bytesViaLeU(off))
 	}
 	for i := 0; i < c.N(15); i++ {
 		rb := r.Bytes(r.Range(0, 30), nil)
